@@ -67,6 +67,19 @@ Theorem C06_get_prune_equiv :
       pkeys log' = accepted_keys log.
 Proof. exact @get_prune_equiv. Qed.
 
+(* … so a rejected change never partially takes effect: the final object is
+   the sequential application, to the initial object, of exactly the accepted
+   entries in the order they were accepted *)
+Theorem C06_state_is_fold_of_accepted :
+  forall (P S : Type) (init : N -> entry P -> option S)
+         (apply : S -> N -> entry P -> list (N * entry P) -> bool * S),
+  atomic apply -> sibling_blind apply ->
+  forall oid g m a h log, dag_wf g ->
+  evaluate init apply oid g = EvOk m a h log ->
+  exists root obj0, lookup oid (graph g) = Some root /\ init oid (nvalue root) = Some obj0 /\
+    a = apply_seq apply obj0 (accepted_entries g log).
+Proof. exact @evaluate_state_is_fold. Qed.
+
 (* ---------------------------------------------------------------- atomicity *)
 
 (* Applying the actions of an operation to a copy of the state and replacing
